@@ -1,5 +1,6 @@
 //! C03 (top level), C12 (text), C13 (stream), C14 (ports), C15 (equality), C16 (NodeId), C17 (keys).
 
+use crate::props::concurrency_probe;
 use crate::dec::{self, DecOut};
 use crate::decmon::{judge_input, JudgeOpts};
 use crate::gen::{self, Rec};
@@ -418,6 +419,8 @@ fn same_outcome(a: &DecOut, b: &DecOut) -> Result<(), &'static str> {
                 Ok(())
             }
         }
+        // the error value is part of the outcome: which rule a complete item breaks cannot depend on what follows it
+        (Err(x), Err(y)) if x != y => Err("error-value-differs"),
         (Err(_), Err(_)) => Ok(()),
         (Ok(_), Err(_)) => Err("alone-accepted-with-suffix-rejected"),
         (Err(_), Ok(_)) => Err("alone-rejected-with-suffix-accepted"),
@@ -501,6 +504,7 @@ fn c13_encoded_lists<KK: KeyKind>(ctx: &mut Ctx, scheme: Scheme) {
 
 pub fn c13(ctx: &mut Ctx) {
     let q = ctx.quick();
+    concurrency_probe(ctx, true, false);
     if !cfg!(miri) && ctx.mine(3) {
         c13_encoded_lists::<K256K>(ctx, Scheme::Secp);
         #[cfg(feature = "libsecp")]
@@ -531,6 +535,12 @@ pub fn c13(ctx: &mut Ctx) {
         // a small record, so that long suffixes still keep the whole buffer interesting
         let minimal = Rec::minimal(rec.key, 1).bytes();
         items.push(("valid-minimal", minimal.clone()));
+        // complete items far shorter than any record
+        for t in [&[0xc0u8][..], &[0x80], &[0x05], &[0xc1, 0x80], &[0xc2, 0x01, 0x02], &[0xc3, 0x80, 0x01, 0x80], &[0x83, 1, 2, 3], &[0xc4, 0x83, b'a', b'b', b'c']] {
+            if !cfg!(miri) {
+                items.push(("tiny-item", t.to_vec()));
+            }
+        }
         // the same bytes under every key type, then again in the reverse order: each type keeps its verdict
         {
             let first: Vec<(KT, bool)> = dec::kts().into_iter().map(|kt| (kt, dec::decode_kt(kt, &valid).res.is_ok())).collect();
@@ -1684,6 +1694,20 @@ pub fn c17(ctx: &mut Ctx) {
         } else {
             secret
         };
+        let secret: [u8; 32] = if i % 17 == 9 {
+            // secrets whose 32 bytes happen to be a well-formed document of another key format: DER (SEC1
+            // ECPrivateKey, bare OCTET STRING / INTEGER / SEQUENCE with consistent lengths), RLP and CBOR strings
+            let pats: [&[u8]; 12] = [
+                &[0x30, 0x1e, 0x02, 0x01, 0x01, 0x04, 0x19], &[0x30, 0x1e, 0x02, 0x01, 0x00, 0x04, 0x19], &[0x30, 0x1e, 0x04, 0x1c], &[0x04, 0x1e], &[0x02, 0x1e], &[0x30, 0x1e],
+                &[0x30, 0x1e, 0x02, 0x01, 0x01, 0x04, 0x18, 0x01], &[0x9f], &[0xb8, 0x1e], &[0x58, 0x1e], &[0x30, 0x1e, 0x02, 0x01, 0x01, 0x04, 0x19, 0x00], &[0x03, 0x1e, 0x00],
+            ];
+            let pat = pats[(i / 17 % 12) as usize];
+            let mut s2 = secret;
+            s2[..pat.len()].copy_from_slice(pat);
+            s2
+        } else {
+            secret
+        };
         let secret: [u8; 32] = if i % 11 == 3 {
             // leading / trailing zero bytes
             let mut s2 = secret;
@@ -1817,15 +1841,28 @@ pub fn c17(ctx: &mut Ctx) {
                     }
                 }
             }
-            // wrong lengths
+            // wrong lengths: patterned, and inputs that EMBED the valid secret the way other key formats do
+            // (seed || public key, public key || seed, seed || seed, padded seeds, the seed as hex text)
             if i % 16 == 0 {
-                for len in [0usize, 1, 16, 31, 33, 48, 64] {
-                    let mut v = vec![0x42u8; len];
+                let pk = sig::ed_pub(&secret).to_vec();
+                let mut shaped: Vec<Vec<u8>> = [0usize, 1, 16, 31, 33, 48, 64, 65, 96].iter().map(|&len| vec![0x42u8; len]).collect();
+                shaped.push([secret.to_vec(), pk.clone()].concat());
+                shaped.push([pk.clone(), secret.to_vec()].concat());
+                shaped.push([secret.to_vec(), secret.to_vec()].concat());
+                shaped.push([secret.to_vec(), vec![0u8; 32]].concat());
+                shaped.push([vec![0u8], secret.to_vec()].concat());
+                shaped.push([secret.to_vec(), vec![0u8]].concat());
+                shaped.push(secret[..31].to_vec());
+                shaped.push(secret[1..].to_vec());
+                shaped.push(hex(&secret).into_bytes());
+                shaped.push([vec![0x04, 0x20], secret.to_vec()].concat());
+                for v0 in shaped {
+                    let mut v = v0.clone();
                     let ok = guard(|| enr::CombinedKey::ed25519_from_bytes(&mut v).is_ok()).unwrap_or(false);
                     ctx.count("evaluations");
                     ctx.count("c17.ed.wrong-length");
                     if ok {
-                        ctx.violate("C17", "wrong-length-secret-accepted", "ed25519", || format!("{len} bytes"), || json!({"kind": "key-import", "which": "ed", "hex": hex(&vec![0x42u8; len])}));
+                        ctx.violate("C17", "wrong-length-secret-accepted", "ed25519", || format!("{} bytes", v0.len()), || json!({"kind": "key-import", "which": "ed", "hex": hex(&v0)}));
                     }
                 }
             }
